@@ -195,6 +195,8 @@ def expr(draw, env, depth, allow_hybrid=False):
             kinds.append(k)
     if "const_cond" in f:
         kinds.append("constcond")
+    if "macro" in f:
+        kinds += ["macro", "macro"]
     if allow_hybrid:
         for k, feat in (("inc", "hyb_inc"), ("call", "hyb_call"), ("stmtexpr", "hyb_stmtexpr")):
             if feat in f:
@@ -283,6 +285,8 @@ def expr(draw, env, depth, allow_hybrid=False):
         n = draw(st.sampled_from(names))
         env.busy.add(n)
         return ("post", draw(st.sampled_from(["++", "--"])), ("var", n))
+    if k == "macro":
+        return draw(macro_call(env, depth))
     if k == "call":
         name = draw(st.sampled_from(env.call_family))
         sd = env.subs.get(name)
@@ -429,6 +433,23 @@ def _maybe_unbrace(draw, f, blk, then_with_else=False):
         # shape of the listed finding KF-C17-dangling-else-binds-to-outer-if (excluded by construction)
         return blk
     return s if draw(st.integers(0, 2)) == 0 else blk
+
+
+@st.composite
+def macro_call(draw, env, depth):
+    """a QEMU bitops macro invocation with explicitly cast value arguments and literal field positions"""
+    name = draw(st.sampled_from(["extract32", "extract64", "sextract64", "deposit32", "deposit64", "bswap16", "bswap32", "bswap64"]))
+    sub = lambda: draw(expr(env, max(depth - 1, 0), False))
+    if name.startswith("bswap"):
+        w = int(name[5:])
+        return ("call", name, [("cast", (False, w), sub())])
+    w = 32 if name.endswith("32") else 64
+    start = draw(st.integers(0, w - 1))
+    length = draw(st.integers(1, w - start))
+    args = [("cast", (False, w), sub()), num(start), num(length)]
+    if name.startswith("deposit"):
+        args.append(("cast", (False, w), sub()))
+    return ("call", name, args)
 
 
 @st.composite
